@@ -122,14 +122,87 @@ theorem filter_noConfed (segs : List Seg) (h : noConfed segs = true) :
   intro s hs
   exact List.all_eq_true.mp h s hs
 
-theorem takePrefix_zero (segs : List Seg) : takePrefix segs 0 = [] := by
-  cases segs <;> simp [takePrefix]
+/-- confederation segment (AS_CONFED_SEQUENCE / AS_CONFED_SET) -/
+def isConfedSeg (s : Seg) : Bool := s.1 == 3 || s.1 == 4
+
+/-- what RFC 6793 can carry to a 2-byte-AS peer: the confederation segments lead the path (RFC 5065) and hold no
+    AS number above 65535 (AS4_PATH never carries confederation segments) -/
+def confedLeading (segs : List Seg) : Bool :=
+  (segs.dropWhile isConfedSeg).all (fun s => !isConfedSeg s) && !hasWideSegs (segs.takeWhile isConfedSeg)
+
+/-- with no hop left to take, `as_path_take_prefix` returns the leading confederation segments -/
+theorem takePrefix_zero (segs : List Seg) : takePrefix segs 0 = segs.takeWhile isConfedSeg := by
+  induction segs with
+  | nil => rfl
+  | cons s rest ih =>
+      by_cases hc : isConfedSeg s = true
+      · have hc' : s.1 = 3 ∨ s.1 = 4 := by simpa [isConfedSeg] using hc
+        have h2 : ¬ s.1 = 2 := by omega
+        have h1 : ¬ s.1 = 1 := by omega
+        simp only [takePrefix, true_and, hc', not_true_eq_false, if_false, h2, h1, List.takeWhile_cons, hc, if_true, ih]
+      · have hc' : ¬ (s.1 = 3 ∨ s.1 = 4) := by simpa [isConfedSeg] using hc
+        have hcf : isConfedSeg s = false := by simpa using hc
+        simp only [takePrefix, true_and, hc', not_false_eq_true, if_true, List.takeWhile_cons, hcf]
+        rfl
+
+theorem takeWhile_down (segs : List Seg) :
+    (downSegs segs).takeWhile isConfedSeg = downSegs (segs.takeWhile isConfedSeg) := by
+  induction segs with
+  | nil => rfl
+  | cons s rest ih =>
+      have e : isConfedSeg (s.1, s.2.map down1) = isConfedSeg s := rfl
+      simp only [downSegs, List.map_cons, List.takeWhile_cons, e] at ih ⊢
+      split
+      · simp only [List.map_cons, ih]
+      · rfl
+
+theorem filter_confedLeading (segs : List Seg) (h : (segs.dropWhile isConfedSeg).all (fun s => !isConfedSeg s) = true) :
+    segs.filter (fun s => s.1 ≠ 3 ∧ s.1 ≠ 4) = segs.dropWhile isConfedSeg := by
+  induction segs with
+  | nil => rfl
+  | cons s rest ih =>
+      by_cases hc : isConfedSeg s = true
+      · have hc' : s.1 = 3 ∨ s.1 = 4 := by simpa [isConfedSeg] using hc
+        have hp : decide (s.1 ≠ 3 ∧ s.1 ≠ 4) = false := by simp; omega
+        simp only [List.dropWhile_cons, hc, if_true] at h ⊢
+        rw [List.filter_cons, hp]
+        exact ih h
+      · have hcf : isConfedSeg s = false := by simpa using hc
+        simp only [List.dropWhile_cons, hcf, Bool.false_eq_true, if_false] at h ⊢
+        rw [List.filter_eq_self]
+        intro x hx
+        have := List.all_eq_true.mp h x hx
+        simp only [isConfedSeg, Bool.not_eq_true', Bool.or_eq_false_iff, beq_eq_false_iff_ne, ne_eq] at this
+        simp [this.1, this.2]
+
+theorem mem_of_mem_dropWhile' {α : Type} (q : α → Bool) (l : List α) (x : α) (h : x ∈ l.dropWhile q) : x ∈ l := by
+  induction l with
+  | nil => simp at h
+  | cons a l ih =>
+      rw [List.dropWhile_cons] at h
+      split at h
+      · exact List.mem_cons_of_mem _ (ih h)
+      · exact h
+
+theorem of_mem_takeWhile' {α : Type} (q : α → Bool) (l : List α) (x : α) (h : x ∈ l.takeWhile q) : q x = true := by
+  induction l with
+  | nil => simp at h
+  | cons a l ih =>
+      rw [List.takeWhile_cons] at h
+      split at h
+      · rcases List.mem_cons.mp h with rfl | h'
+        · assumption
+        · exact ih h'
+      · simp at h
+
+theorem encSegs_append (w : Nat) (a b : List Seg) : encSegs w (a ++ b) = encSegs w a ++ encSegs w b := by
+  simp [encSegs]
 
 /-- **AS4 round trip** (the exact condition): for a canonical 4-octet AS_PATH `b = encSegs 4 segs`, what a
     2-byte-AS peer reconstructs from the downgraded AS_PATH and the AS4_PATH is `b` again, provided the path has
-    no AS number above 65535 or has no confederation segment. -/
+    no AS number above 65535, or its confederation segments lead the path and hold no such number. -/
 theorem as4_roundtrip (segs : List Seg) (hok : SegsOk 4 segs)
-    (hcond : hasWideSegs segs = true → noConfed segs = true) :
+    (hcond : hasWideSegs segs = true → confedLeading segs = true) :
     let b := encSegs 4 segs
     ∃ d, asPathDowngrade b = .ok d ∧
       ∃ up, parseSegs 2 d = some up ∧
@@ -140,14 +213,34 @@ theorem as4_roundtrip (segs : List Seg) (hok : SegsOk 4 segs)
     simp only [asPathHasWide, b, parseSegs_enc 4 (Or.inr rfl) segs hok, hasWideSegs]
   rw [hw]
   by_cases hwide : hasWideSegs segs = true
-  · have hnc := hcond hwide
+  · have hcl := hcond hwide
+    simp only [confedLeading, Bool.and_eq_true, Bool.not_eq_true'] at hcl
+    obtain ⟨hlead, hnarrow⟩ := hcl
     simp only [hwide, if_true]
-    have hstrip : asPathStripConfed b = b := by
-      simp only [asPathStripConfed, b, parseSegs_enc 4 (Or.inr rfl) segs hok, filter_noConfed segs hnc]
+    have hstrip : asPathStripConfed b = encSegs 4 (segs.dropWhile isConfedSeg) := by
+      simp only [asPathStripConfed, b, parseSegs_enc 4 (Or.inr rfl) segs hok, filter_confedLeading segs hlead]
+    have hokd : SegsOk 4 (segs.dropWhile isConfedSeg) := fun s hs => hok s (mem_of_mem_dropWhile' _ _ _ hs)
     rw [hstrip]
-    simp only [asPathReconcile, parseSegs_enc 4 (Or.inr rfl) _ (downSegs_ok4 segs hok), b,
-      parseSegs_enc 4 (Or.inr rfl) segs hok, countHops_down, Nat.lt_irrefl, if_false, Nat.sub_self, takePrefix_zero]
-    simp [encSegs]
+    simp only [asPathReconcile, parseSegs_enc 4 (Or.inr rfl) _ (downSegs_ok4 segs hok),
+      parseSegs_enc 4 (Or.inr rfl) _ hokd]
+    have hcnt : countHops (segs.dropWhile isConfedSeg) = countHops segs := by
+      have hsplit : segs = segs.takeWhile isConfedSeg ++ segs.dropWhile isConfedSeg := (List.takeWhile_append_dropWhile).symm
+      have hzero : ∀ l : List Seg, (∀ s ∈ l, isConfedSeg s = true) → ∀ r, countHops (l ++ r) = countHops r := by
+        intro l hl r
+        induction l with
+        | nil => rfl
+        | cons x xs ih =>
+            have hx : x.1 = 3 ∨ x.1 = 4 := by simpa [isConfedSeg] using hl x (by simp)
+            have h1 : ¬ x.1 = 1 := by omega
+            have h2 : ¬ x.1 = 2 := by omega
+            have := ih (fun s hs => hl s (by simp [hs]))
+            simp only [countHops, List.cons_append, List.foldl_cons, h1, h2, if_false] at this ⊢
+            exact this
+      conv => rhs; rw [hsplit]
+      exact (hzero _ (fun s hs => of_mem_takeWhile' _ _ _ hs) _).symm
+    rw [countHops_down, hcnt]
+    simp only [Nat.lt_irrefl, if_false, Nat.sub_self, takePrefix_zero, takeWhile_down, downSegs_id _ hnarrow]
+    rw [← encSegs_append, List.takeWhile_append_dropWhile]
   · have hwf : hasWideSegs segs = false := by simpa using hwide
     simp only [hwf, Bool.false_eq_true, if_false, downSegs_id segs hwf, b]
 
